@@ -88,7 +88,7 @@ def random_family(rng):
     return "random", gname, gen.formula(rng.randint(1, 2), {"start": "<start>"})
 
 
-def settings(rng):
+def settings(rng, unsat=0.15):
     return {
         "max_number_free_instantiations": rng.choice([1, 3, 10]),
         "max_number_smt_instantiations": rng.choice([1, 3, 10]),
@@ -96,7 +96,7 @@ def settings(rng):
         "enforce_unique_trees_in_queue": rng.random() < 0.5,
         "tree_insertion_methods": rng.choice([None, None, 1, 2, 3, 4, 5, 6, 7]),
         "max_number_tree_insertion_results": rng.choice([1, 5]),
-        "activate_unsat_support": rng.random() < 0.15,
+        "activate_unsat_support": rng.random() < unsat,
     }
 
 
